@@ -603,7 +603,12 @@ pub fn observe_err(e: &reval::Error) -> OErr {
         E::UnknownUserFunction(n) => OErr::UnknownUserFunction(n.clone()),
         E::UserFunctionError { function, error } => OErr::UserFunctionError(
             function.clone(),
-            error.downcast_ref::<Injected>().map(|i| i.0),
+            // the injected error is found again by downcast: either the harness's own error type or
+            // a reval error of an inner ruleset, whose function name carries the token
+            error.downcast_ref::<Injected>().map(|i| i.0).or_else(|| match error.downcast_ref::<reval::Error>() {
+                Some(E::UserFunctionError { function: inner, .. }) => inner.strip_prefix("inner#").and_then(|t| t.parse().ok()),
+                _ => None,
+            }),
             error.to_string(),
         ),
         E::ValueOutOfBounds(v, _) => OErr::ValueOutOfBounds(RV::from_value(v)),
